@@ -84,7 +84,7 @@ func init() {
 		Rule: "each case draws node lists A,B,C over a 5-id universe and 2 edge types (a quarter of the cases: identifiers and type numbers that concatenate alike, 4 edge types; case parity decides whether ill-formed operands - dangling edges/roots, several edges per source/type, repeated targets - are allowed; " +
 			"shared nodes carry reflection-populated attributes, each field independently empty or not). Monitored: Union(A,B) and Add against the set model (ids, roots, edge triples restricted to present nodes), " +
 			"idempotence, commutativity, identity, associativity (where the model itself is associative, i.e. always for well-formed operands), attribute precedence per schema field for every shared node " +
-			"(Union: argument wins when non-empty; Add: receiver wins when non-empty). distinct = hash of canonical (A,B); non-trivial = A and B share at least one node or both have edges.",
+			"(Union: argument wins when non-empty; Add: receiver wins when non-empty). Operands and every returned result are compared with their snapshots at the end of the case (after sibling unions off the same receiver and an in-place Add onto an earlier result). distinct = hash of canonical (A,B); non-trivial = A and B share at least one node or both have edges.",
 		Assumptions: []string{"node ids are unique within one operand", "list-valued attributes are compared as multisets", "the node kind is judged only where the statement's rule and the behaviour pinned by TestUpdate/TestAugment (the node already in the list keeps its kind) coincide"},
 		NCases: func(tier string) int {
 			if tier == "thorough" {
@@ -129,6 +129,25 @@ func c09Case(c *core.C) {
 			}
 		}
 	}()
+	// every result is a value of its own: what is computed later from the same operands must not change it
+	type kept struct {
+		name      string
+		now, then *sbom.NodeList
+	}
+	var results []kept
+	retain := func(name string, res *sbom.NodeList) {
+		if res != nil {
+			results = append(results, kept{name, res, gen.Clone(res)})
+		}
+	}
+	defer func() {
+		for _, o := range results {
+			if !proto.Equal(o.now, o.then) {
+				c.Violatef("union-result-changed-later", det3of(A, B, C), "the result of %s was %s when it was returned and is %s after the later unions of this case", o.name, gen.Canon(o.then), gen.Canon(o.now))
+				return
+			}
+		}
+	}()
 	shared := gen.Inter(gen.IDSet(A), gen.IDSet(B))
 	if len(shared) > 0 || (len(A.Edges) > 0 && len(B.Edges) > 0) {
 		c.DistinctStr(gen.Canon(A) + "|" + gen.Canon(B))
@@ -149,6 +168,7 @@ func c09Case(c *core.C) {
 	if !c09CheckSets(c, "union", U, ids, roots, triples, det) {
 		return
 	}
+	retain("A.Union(B)", U)
 	// attribute precedence for shared nodes: B's value when non-empty, else A's
 	for id := range shared {
 		c.Evals(1)
@@ -191,6 +211,9 @@ func c09Case(c *core.C) {
 	}) {
 		return
 	}
+	retain("A.Union(A)", AA)
+	retain("B.Union(A)", BA)
+	retain("(empty).Union(A)", EA)
 	ia, ra, ta := unionModel(A, A)
 	c.Cover("law:idempotence")
 	if !c09CheckSets(c, "union-idempotence", AA, ia, ra, ta, det) {
@@ -212,6 +235,26 @@ func c09Case(c *core.C) {
 		R = A.Union(B.Union(C))
 	}) {
 		return
+	}
+	retain("A.Union(B).Union(C)", L)
+	retain("A.Union(B.Union(C))", R)
+	// a sibling result off the same receiver, and an in-place extension of another one
+	var AC *sbom.NodeList
+	ae0 := gen.Clone(AE)
+	if guard(c, "Union", det3, func() {
+		AC = A.Union(C)
+		AE.Add(C)
+	}) {
+		return
+	}
+	c.Cover("sibling-results-of-one-receiver")
+	{
+		si, sr, st := unionModel(A, C)
+		ei, er, et := unionModel(ae0, C) // the model on the value the Add started from (an ill-formed A lost its dangling edges in the union)
+		if !c09CheckSets(c, "union-sibling", AC, si, sr, st, det3) || !c09CheckSets(c, "add-onto-union-with-empty", AE, ei, er, et, det3) {
+			return
+		}
+		retain("A.Union(C)", AC)
 	}
 	mAB := modelList(A, B)
 	mBC := modelList(B, C)
@@ -275,6 +318,10 @@ func modelList(a, b *sbom.NodeList) *sbom.NodeList {
 }
 
 var _ = fmt.Sprint
+
+func det3of(a, b, c *sbom.NodeList) map[string]any {
+	return map[string]any{"A": gen.Canon(a), "B": gen.Canon(b), "C": gen.Canon(c)}
+}
 
 func det0(a, b *sbom.NodeList) map[string]any {
 	return map[string]any{"A": gen.Canon(a), "B": gen.Canon(b)}
